@@ -105,6 +105,36 @@ HOSTILE_KEYS = ['{}', '{0}', '{1}', '{x}', '{!r}', '{0.real}', '{0[0]}', '{:d}',
                 'x-' + 'k' * 40 + ':v', '_' * 36 + '-', 'a' * 26 + '\u00e9']
 
 
+def homogeneous_arrays():
+    """arrays of 0..40 items that all carry the same type tag, over the tag's full range"""
+    def arr(tag, n):
+        if tag in 'bsIl':
+            w = {'b': 1, 's': 2, 'I': 4, 'l': 8}[tag]
+            item = _ints(w, True)
+        elif tag in 'Bui':
+            item = _ints({'B': 1, 'u': 2, 'i': 4}[tag], False)
+        elif tag == 'L':
+            item = st.integers(0, 2 ** 63 - 1)
+        elif tag == 't':
+            item = st.integers(0, 255)
+        elif tag == 'f':
+            item = st.floats(width=32, allow_nan=False)
+        elif tag == 'd':
+            item = st.floats(allow_nan=False)
+        elif tag == 'T':
+            item = timestamps().filter(lambda x: x // 1000 <= MAXDT or x <= 0xFFFFFFFF)
+        elif tag == 'D':
+            return st.lists(st.tuples(st.just('D'), st.integers(0, 255), _ints(4, True)
+                                      ).map(list), min_size=n, max_size=n)
+        else:
+            return st.just([[tag]] * n)
+        return st.lists(st.tuples(st.just(tag), item).map(list), min_size=n,
+                        max_size=n)
+    return st.tuples(st.sampled_from('bBsuIilLtfdTDV'),
+                     st.one_of(st.integers(0, 12), st.sampled_from([7, 8, 9, 16, 40]))
+                     ).flatmap(lambda tn: arr(*tn)).map(lambda xs: ['A', xs])
+
+
 def wire_keys():
     return st.one_of(S.table_keys(), S.shortstrs(255), st.just(''),
                      st.sampled_from(HOSTILE_KEYS),
@@ -115,7 +145,7 @@ def wire_keys():
 
 def wire_values(max_leaves=10):
     return st.recursive(
-        wire_leaves(),
+        st.one_of(wire_leaves(), wire_leaves(), wire_leaves(), homogeneous_arrays()),
         lambda ch: st.one_of(
             st.lists(ch, max_size=5).map(lambda xs: ['A', xs]),
             st.lists(st.tuples(wire_keys(), ch).map(list), max_size=5,
